@@ -172,6 +172,10 @@ def rhs1d_sources(ctx, rng, idx):
     if mname == "nozzle" and rng.random() < 0.7:          # several DIFFERENT user sources at once
         src2, sdesc2 = _src(rng, neq)
         src = [a_ or b_ for a_, b_ in zip(src, src2)]; sdesc = [a_ or b_ for a_, b_ in zip(sdesc, sdesc2)]
+    live_ = [i for i in range(neq) if src[i] is not None]
+    if len(live_) >= 2 and rng.random() < 0.25:          # the SAME callable object declared for several equations
+        for j in live_[1:]:
+            src[j], sdesc[j] = src[live_[0]], sdesc[live_[0]]
     section = None
     if mname == "nozzle":
         aa, bb = float(np.round(rng.uniform(0.5, 2), 2)), float(np.round(rng.uniform(0.05, 0.5), 2))
